@@ -668,13 +668,28 @@ class SymInt(int):
     def __abs__(s):
         return SymInt(z3.If(s.expr >= 0, s.expr, -s.expr))
 
+    def __round__(s, n=None):
+        return s
+
+    def __float__(s):
+        return SymReal(z3.ToReal(s.expr))
+
+    def __truediv__(s, o):
+        return SymReal(z3.ToReal(s.expr)).__truediv__(o)
+
+    def __rtruediv__(s, o):
+        return SymReal(z3.ToReal(s.expr)).__rtruediv__(o)
+
     def _c(s, o, f):
         e = lift_int(o)
         if e is None:
-            if isinstance(o, float) and not isinstance(o, (SymReal, SymFP)) and o == int(o):
-                e = z3.IntVal(int(o))
-            else:
-                return NotImplemented
+            if isinstance(o, SymReal):
+                return ENG.branch(f(z3.ToReal(s.expr), o.expr))
+            if isinstance(o, float) and not isinstance(o, SymFP):
+                if o != o or o in (math.inf, -math.inf):
+                    return bool(f(0, o))
+                return ENG.branch(f(z3.ToReal(s.expr), rv(o)))  # never let float.__lt__ see the int payload
+            return NotImplemented
         return ENG.branch(f(s.expr, e))
 
     def __lt__(s, o):
@@ -691,11 +706,15 @@ class SymInt(int):
 
     def __eq__(s, o):
         e = lift_int(o)
+        if e is None and isinstance(o, float) and not isinstance(o, (SymReal, SymFP)):
+            if o != o or o in (math.inf, -math.inf):
+                return False
+            return ENG.branch(z3.ToReal(s.expr) == rv(o))
         return False if e is None else ENG.branch(s.expr == e)
 
     def __ne__(s, o):
-        e = lift_int(o)
-        return True if e is None else ENG.branch(s.expr != e)
+        r = s.__eq__(o)
+        return not r
 
     def __bool__(s):
         return ENG.branch(s.expr != 0)
